@@ -21,29 +21,32 @@ Open Scope Z_scope.
 Inductive wkind : Set := WkPlain | WkLoopExpr | WkNil.
 Record tok : Set := mkTok { t_text : str; t_kind : wkind }.
 
-Record lexer : Set := mkLexer {
+Record lexer : Set := mkLx {
   ioRedirect : str;
   remaining : list tok;
   atCommandStart : bool;
   sinceFor : Z;
   sinceCase : Z;
-  inCasePattern : bool }.
+  inCasePattern : bool;
+  afterAssign : bool }.
 
 (* NewShellLexer(tokens, rest) *)
-Definition new_lexer (tokens : list tok) : lexer := mkLexer [] tokens true (-1) (-1) false.
+Definition new_lexer (tokens : list tok) : lexer := mkLx [] tokens true (-1) (-1) false false.
 
 Definition set_io (s : str) (lx : lexer) : lexer :=
-  mkLexer s (remaining lx) (atCommandStart lx) (sinceFor lx) (sinceCase lx) (inCasePattern lx).
+  mkLx s (remaining lx) (atCommandStart lx) (sinceFor lx) (sinceCase lx) (inCasePattern lx) (afterAssign lx).
 Definition set_remaining (r : list tok) (lx : lexer) : lexer :=
-  mkLexer (ioRedirect lx) r (atCommandStart lx) (sinceFor lx) (sinceCase lx) (inCasePattern lx).
+  mkLx (ioRedirect lx) r (atCommandStart lx) (sinceFor lx) (sinceCase lx) (inCasePattern lx) (afterAssign lx).
 Definition set_acs (b : bool) (lx : lexer) : lexer :=
-  mkLexer (ioRedirect lx) (remaining lx) b (sinceFor lx) (sinceCase lx) (inCasePattern lx).
+  mkLx (ioRedirect lx) (remaining lx) b (sinceFor lx) (sinceCase lx) (inCasePattern lx) (afterAssign lx).
 Definition set_for (z : Z) (lx : lexer) : lexer :=
-  mkLexer (ioRedirect lx) (remaining lx) (atCommandStart lx) z (sinceCase lx) (inCasePattern lx).
+  mkLx (ioRedirect lx) (remaining lx) (atCommandStart lx) z (sinceCase lx) (inCasePattern lx) (afterAssign lx).
 Definition set_case (z : Z) (lx : lexer) : lexer :=
-  mkLexer (ioRedirect lx) (remaining lx) (atCommandStart lx) (sinceFor lx) z (inCasePattern lx).
+  mkLx (ioRedirect lx) (remaining lx) (atCommandStart lx) (sinceFor lx) z (inCasePattern lx) (afterAssign lx).
 Definition set_icp (b : bool) (lx : lexer) : lexer :=
-  mkLexer (ioRedirect lx) (remaining lx) (atCommandStart lx) (sinceFor lx) (sinceCase lx) b.
+  mkLx (ioRedirect lx) (remaining lx) (atCommandStart lx) (sinceFor lx) (sinceCase lx) b (afterAssign lx).
+Definition set_aa (b : bool) (lx : lexer) : lexer :=
+  mkLx (ioRedirect lx) (remaining lx) (atCommandStart lx) (sinceFor lx) (sinceCase lx) (inCasePattern lx) b.
 
 Definition s_semi : str := [59]%N. (* ; *)
 Definition s_semisemi : str := [59; 59]%N. (* ;; *)
@@ -157,13 +160,16 @@ Definition bump (lx : lexer) : lexer :=
   let lx := if 0 <=? sinceFor lx then set_for (sinceFor lx + 1) lx else lx in
   if 0 <=? sinceCase lx then set_case (sinceCase lx + 1) lx else lx.
 
-(* the final tagless `switch` *)
-Definition lex_word (token : str) (kind : wkind) (lx : lexer) : lex_result :=
+(* the final tagless `switch`; aa = the local `afterAssign` (the previous token was an
+   assignment word) *)
+Definition lex_word (token : str) (kind : wkind) (aa : bool) (lx : lexer) : lex_result :=
   if (sinceFor lx =? 2) && str_eqb token s_in then LexTok tkIN (set_acs false lx)
   else if (sinceFor lx =? 2) && str_eqb token s_do then LexTok tkDO (set_acs true lx)
   else if (sinceCase lx =? 2) && str_eqb token s_in then LexTok tkIN (set_icp true (set_acs false lx))
-  else if (atCommandStart lx || (sinceCase lx =? 3)) && str_eqb token s_esac then LexTok tkESAC (set_icp false (set_acs true lx))
-  else if atCommandStart lx && assignment_shaped token then LexTok tkASSIGNMENT_WORD lx
+  else if ((atCommandStart lx && negb aa) || (sinceCase lx =? 3)) && str_eqb token s_esac
+    then LexTok tkESAC (set_icp false (set_acs true lx))
+  else if atCommandStart lx && negb (inCasePattern lx) && assignment_shaped token
+    then LexTok tkASSIGNMENT_WORD (set_aa true lx)
   else if starts_with_hash token then LexEOF lx
   else
     let lx1 := set_acs false lx in
@@ -185,19 +191,23 @@ Definition Lex (lx : lexer) : lex_result :=
       | [] => (t_text first, t_kind first, set_remaining rest (set_io [] lx))
       | io => (io, WkPlain, set_io [] lx)
       end in
+    (* afterAssign := lex.afterAssign; lex.afterAssign = false *)
+    let aa := afterAssign lx in
+    let lx := set_aa false lx in
     match lookup operator_table token with
     | Some (t, eff) => LexTok t (eff lx)
     | None =>
       match match_io_number token with
       | Some (_, op) => LexTok tkIO_NUMBER (set_io op lx)
       | None =>
-        if atCommandStart lx then
-          let lx := set_for (-1) (set_case (-1) lx) in
-          match lookup keyword_table token with
-          | Some (t, eff) => LexTok t (eff lx)
-          | None => lex_word token kind (bump lx)
-          end
-        else lex_word token kind (bump lx)
+        let lx := if atCommandStart lx then set_for (-1) (set_case (-1) lx) else lx in
+        (* reserved words only where a command may start: not in a case pattern, not
+           directly after an assignment word *)
+        match (if atCommandStart lx && negb (inCasePattern lx) && negb aa
+               then lookup keyword_table token else None) with
+        | Some (t, eff) => LexTok t (eff lx)
+        | None => lex_word token kind aa (bump lx)
+        end
       end
     end
   end.
